@@ -96,7 +96,7 @@ def run(ctx):
                         + '; pk_original_after := ' + lib.clist([pkc(x) for x in f.get('caches_original_after', [])])
                         + '; pk_copy := ' + lib.clist([pkc(x) for x in f.get('caches_copy', [])]) + ' |}')
             owners.append((ci, c, f))
-    shards = lib.write_shards(ctx['pid'], 'pk', ['Values', 'MemGen', 'PickleGen', 'Store', 'Pickle', 'CheckLib'], 'pk_case', 'check_pickle', lits, per=300)
+    shards = lib.write_shards(ctx['pid'], 'pk', ['Values', 'MemGen', 'MemPickleGen', 'PickleGen', 'Store', 'Pickle', 'CheckLib'], 'pk_case', 'check_pickle', lits, per=300)
     total, bad, errors = lib.run_shards(shards)
     for e in errors:
         viol.append({'signature': 'harness-error', 'what': e, 'case': None})
